@@ -5,12 +5,13 @@ import json, os, subprocess
 V = os.path.dirname(os.path.dirname(os.path.abspath(__file__)))
 props = [json.loads(l) for l in open(os.path.join(V, 'properties.jsonl'))]
 hook_commits = subprocess.run(['git', '-C', '/repo', 'log', '--format=%H', '--grep=^verif hooks'], capture_output=True, text=True).stdout.split()
+ready = set(open(os.path.join(V, 'props', 'READY')).read().split())   # ids the lead has accepted
 checks, na = [], []
 for p in props:
     pid = p['id']
     mp = os.path.join(V, 'props', pid + '.json')
     meta = json.load(open(mp)) if os.path.exists(mp) else {}
-    if not meta.get('claimed'):
+    if not meta.get('claimed') or pid not in ready:
         na.append({'property_id': pid, 'reason': meta.get('na_reason', 'machinery for this property is not built yet (work in progress); no claim is made')})
         continue
     checks.append({
